@@ -88,6 +88,20 @@ class Builder:
         self.append_states = {}  # id(append statement) -> abstract states reaching it
         self._counter = None
         self._find_acc()
+        # locals every store of which is a string literal (and that are not part of the accumulator family)
+        st_ = {}
+        for n in ast.walk(self.fn):
+            if isinstance(n, (ast.Assign, ast.AnnAssign, ast.AugAssign)):
+                for t in (n.targets if isinstance(n, ast.Assign) else [n.target]):
+                    for x in ast.walk(t):
+                        if isinstance(x, ast.Name):
+                            ok_ = isinstance(n, ast.Assign) and len(n.targets) == 1 and t is x and isinstance(n.value, ast.Constant) and isinstance(n.value.value, str)
+                            st_.setdefault(x.id, []).append(ok_)
+            elif isinstance(n, (ast.For, ast.comprehension)):
+                for x in ast.walk(n.target):
+                    if isinstance(x, ast.Name):
+                        st_.setdefault(x.id, []).append(False)
+        self.str_locals = {k for k, v in st_.items() if v and all(v) and k not in self.family}
 
     def _find_acc(self):
         rets = [n for n in ast.walk(self.fn) if isinstance(n, ast.Return) and n.value is not None]
@@ -136,11 +150,16 @@ class Builder:
                 if isinstance(value, ast.Name) and value.id in self.family:
                     return states  # the string is handed to the next local
                 if isinstance(value, ast.BinOp) and isinstance(value.op, ast.Add) and isinstance(value.left, ast.Name) and value.left.id in self.family:
-                    return self.append(node, value.right, states)
+                    return self.append_expr(node, value.right, states)
                 raise AnalysisError("string builder: accumulator assigned from an unrecognised expression at line %d" % node.lineno)
             # tracked boolean locals
             if len(targets) == 1 and isinstance(targets[0], ast.Name) and isinstance(value, ast.Constant) and isinstance(value.value, bool):
                 name = targets[0].id
+                return {s.set_bool(name, value.value) if s is not None else None for s in states}
+            if len(targets) == 1 and isinstance(targets[0], ast.Name) and isinstance(value, ast.Constant) and isinstance(value.value, str) and targets[0].id in self.str_locals:
+                # a local that only ever holds literal text (a separator chosen ahead of its use): its value is part of the state
+                name = targets[0].id
+                self.local_values.setdefault(name, []).append(value)
                 return {s.set_bool(name, value.value) if s is not None else None for s in states}
             # other locals: remember which loop variables they derive from (provenance), and filtered views of
             # the input sequence
@@ -161,7 +180,7 @@ class Builder:
             if isinstance(node.target, ast.Name) and node.target.id in self.family:
                 if not isinstance(node.op, ast.Add):
                     raise AnalysisError("string builder: accumulator updated with an operator other than += at line %d" % node.lineno)
-                return self.append(node, node.value, states)
+                return self.append_expr(node, node.value, states)
             return states
         if isinstance(node, ast.If):
             t_states, f_states = set(), set()
@@ -221,7 +240,9 @@ class Builder:
                     out_.add(s_)
                 return out_
 
-            seen = set(leave(states))
+            # a view that a dominating test found non-empty is iterated at least once
+            vname = it.id if isinstance(it, ast.Name) and it.id in self.views else None
+            seen = set(leave({s_ for s_ in states if not (vname and s_ is not None and s_.bool("nonempty:" + vname) is True)}))
             frontier = set(states)
             first = True
             # fixpoint: the body runs zero or more times; each iteration starts with an unknown sign
@@ -267,6 +288,9 @@ class Builder:
         if isinstance(test, ast.Name):
             if test.id in self.family:
                 return [(s.last != EMPTY or s.region == DEN, s)]
+            if test.id in self.views and isinstance(self.views[test.id], ast.ListComp):
+                # a filtered list of the items used as a condition: whether it is empty is remembered
+                return [(True, s.set_bool("nonempty:" + test.id, True)), (False, s.set_bool("nonempty:" + test.id, False))]
             b = s.bool(test.id)
             if b is not None:
                 return [(b, s)]
@@ -384,11 +408,32 @@ class Builder:
                         out |= self.literals(v, _depth + 1)
         return out
 
+    def append_expr(self, node, e, states):
+        """An appended expression, piece by piece: `a + b` appends a then b; `x if c else y` appends x or y according to
+        the condition; a local holding literal text appends that text."""
+        if isinstance(e, ast.BinOp) and isinstance(e.op, ast.Add):
+            return self.append_expr(node, e.right, self.append_expr(node, e.left, states))
+        if isinstance(e, ast.IfExp):
+            out = set()
+            for s in states:
+                for outcome, s2 in self.cond(e.test, s):
+                    out |= self.append_expr(node, e.body if outcome else e.orelse, {s2})
+            return out
+        if isinstance(e, ast.Name) and e.id in self.str_locals:
+            out = set()
+            for s in states:
+                v = s.bool(e.id) if s is not None else None
+                if not isinstance(v, str):
+                    raise AnalysisError("string builder: the text held by `%s` is not known where it is appended (line %d)" % (e.id, node.lineno))
+                out |= self.append(node, ast.copy_location(ast.Constant(value=v), e), {s})
+            return out
+        return self.append(node, e, states)
+
     def append(self, node, e, states):
         self.n_appends += 1
         kind = self.classify(e)
         roles = self._roles(e) if kind in ("start", "suffix") else set()
-        if not any(n is node for n, _, _ in self.append_exprs):
+        if not any(n is node and (e0 is e or ast.dump(e0) == ast.dump(e)) for n, e0, _ in self.append_exprs):
             self.append_exprs.append((node, e, roles))
         if roles & {"exp", "uexp"}:
             for lp in self._loop_stack:
